@@ -22,6 +22,61 @@ TABLE = "chalk_engine::table::Table"
 
 
 def run(ck, facts, tier):
+    # ------------------------------------------------------------------ GREEN-CUT
+    R = "C03.GREEN-CUT"
+    ck.rule(R, "K10 (symbolic evaluation of the guard): SolveState::pursue_answer may discard the remaining strands of the table "
+               "(Table::take_strands - no further answer of this table will ever be produced) only when the answer just published has the "
+               "trivial substitution AND no region constraints: the condition guarding take_strands, with its flags expanded to their "
+               "definitions, must be false whenever is_trivial_substitution is false and whenever constraints.is_empty is false, whatever "
+               "else holds (a goal without inference variables can still have a second answer with other constraints - from the environment)")
+    pb = need_body(ck, facts, R, "chalk_engine::logic::SolveState::pursue_answer")
+    if pb:
+        from kit import let_inits, bool_atoms, bool_eval, _Return
+        pth = facts.thir("chalk_engine::logic::SolveState::pursue_answer")
+        inits = let_inits(pth)
+
+        def expand(n, depth=4):
+            if isinstance(n, list):
+                return [expand(x, depth) for x in n]
+            if not isinstance(n, dict):
+                return n
+            if n.get("k") == "var" and n.get("n") in inits and depth > 0:
+                return expand(inits[n["n"]], depth - 1)
+            return {k_: (expand(v_, depth) if k_ not in ("pat",) else v_) for k_, v_ in n.items()}
+        cuts = [n for n in walk(pth) if n.get("k") == "if" and has_call(n["then"], "take_strands")]
+        # the innermost conditions only (an enclosing `if let Some(i) = push_answer(..)` is not the guard of the cut)
+        cuts = [n for n in cuts if not any(m_ is not n and m_.get("k") == "if" and has_call(m_["then"], "take_strands") for m_ in walk(n["then"]))]
+        ck.floor(R, "pursue_answer.take_strands-guards", len(cuts), 1)
+        for i, n in enumerate(cuts):
+            cond = expand(n["cond"])
+            atoms = bool_atoms(cond)
+            req = {"is_trivial_substitution": [a for a in atoms if a.get("k") == "call" and callee_matches(a, "is_trivial_substitution")],
+                   "constraints.is_empty": [a for a in atoms if a.get("k") == "call" and str(a.get("fn", "")).endswith("is_empty") and mentions_field(a, "constraints")]}
+            for what, alist in req.items():
+                inst = "pursue_answer:take_strands#%d:requires:%s" % (i, what)
+                if not alist:
+                    ck.violation(R, inst, pb.where(n.get("ln")), "the guard of the cut does not test %s at all" % what)
+                    continue
+                # for EVERY assignment of the other tests: with this one false the guard must be false
+                import itertools
+                others = [a for a in atoms if all(a is not b_ for b_ in alist)][:10]
+                r = False
+                for combo in itertools.product((True, False), repeat=len(others)):
+                    vals = {id(a): v_ for a, v_ in zip(others, combo)}
+                    for a in alist:
+                        vals[id(a)] = False
+                    try:
+                        r1 = bool_eval(cond, vals)
+                    except _Return as e:
+                        r1 = e.v
+                    if r1 is not False:
+                        r = r1
+                        break
+                if r is False:
+                    ck.ok(R, inst, "the cut is impossible when %s is false" % what)
+                else:
+                    ck.violation(R, inst, pb.where(n.get("ln")), "with %s false (and every other test true) the guard evaluates to %s: the remaining "
+                                 "strands are discarded although another answer may follow" % (what, r))
     # ------------------------------------------------------------------ SUCCESS-MEANS-ANSWER
     R = "C03.SUCCESS-MEANS-ANSWER"
     ck.rule(R, "K3: SolveState::on_no_remaining_subgoals reports NoRemainingSubgoalsResult::Success - `go on with the caller's strand under "
